@@ -419,6 +419,7 @@ type target struct {
 type harness struct {
 	c       *core.Ctx
 	sampled map[string]bool
+	kept    []retained // results delivered earlier (see retain)
 }
 
 // sample keeps one real case per (stream kind, outcome class) for the evidence.
@@ -556,6 +557,7 @@ func (h *harness) judge(stream string, idx int, tg *target, args []interface{}) 
 		return "differs"
 	}
 	c.Nontrivial(core.Hash64(fmt.Sprintf("ok|%s|%d", stream, idx)))
+	h.retain(retained{stream, idx, tg, args, ret, want})
 	return "result-equal"
 }
 
@@ -679,7 +681,13 @@ func Run(c *core.Ctx) {
 		"Reference: arity and Go assignability decide whether an error is demanded; numbers for numeric parameters are converted with Go's T(x) (no verdict when Go leaves T(x) undefined or an argument is NULL); results are the direct call's results with integers/floats as float64. "+
 		"Non-trivial = distinct (function, argument vector) pairs with a definite expectation that was met (result equal to the direct call, Go error delivered, error for an ill-formed call). Math order/exponent arguments beyond +-1000 for jn/yn/pow10/ldexp/inf are skipped.")
 	ts := targets()
-	c.Note("functions", fmt.Sprintf("%d bridged functions (generated stdlib + synthetic)", len(ts)))
+	pts := h.pluginTargets()
+	if !pluginLoaded {
+		c.Inconclusive("VH_PLUGIN is not set: the real plugin (harness/c19plugin) was not loaded", "plugin-load", 0, nil)
+	}
+	ts = append(ts, pts...)
+	c.Note("functions", fmt.Sprintf("%d bridged functions (generated stdlib + synthetic + %d functions of a real Go plugin loaded by stdlib.AddStdlibPluginFunc / LoadStdlibPlugins)", len(ts), len(pts)))
+	c.Note("histories", "every result list that equalled the reference is kept and compared again after each of the next 8 bridge calls (a delivered result must not change); stream plugin-seq: random call sequences over the plugin functions incl. panicking ones, every call watched (a call parked on a bridge lock nobody holds is a violation); stream conc: 2..4 goroutines call multi-result functions at the same time and re-read their result lists after yielding")
 	U := len(universe)
 	n3 := vecCount(U, 3)
 	n4 := c.Pick(1500, 100000)
@@ -752,6 +760,8 @@ func Run(c *core.Ctx) {
 	for k, n := range outcome {
 		c.Event("adapter."+k, n)
 	}
+	h.streamPluginSeq(pts)
+	h.streamConc(ts)
 	h.throughECAL(ts)
 }
 
